@@ -110,13 +110,13 @@ func genVerCase(r *rng.R) verCase {
 		c.Pre = rng.Pick(r, []string{"rc1", "beta-2", "alpha.1", "0"})
 	}
 	if r.Chance(1, 5) {
-		c.Meta = rng.Pick(r, []string{"git", "build.5", "p7"})
+		c.Meta = rng.Pick(r, []string{"git", "build.5", "p7", "git-abc123", "2024-01-02"})
 	}
 	if r.Chance(1, 2) {
 		c.Release = rng.Pick(r, []string{"1", "2", "r3", "0", "10", "x"})
 	}
 	if r.Chance(1, 4) {
-		c.Epoch = rng.Pick(r, []string{"1", "2", "0", "10"})
+		c.Epoch = rng.Pick(r, []string{"1", "2", "0", "10", "010", "007"})
 	}
 	return c
 }
@@ -319,10 +319,12 @@ func runC15(c *Ctx) error {
 		if r.Chance(1, 6) {
 			override = rng.Pick(r, []string{"custom", "armv9", "any"})
 		}
+		platform := rng.Pick(r, []string{"linux", "linux", "linux", "freebsd"})
 		for _, f := range Formats {
 			mut := func(info *nfpm.Info) {
 				vc.apply(info)
 				info.Name, info.Arch = name, arch
+				info.Platform = platform
 				switch f {
 				case "deb":
 					info.Deb.Arch = override
@@ -338,12 +340,12 @@ func runC15(c *Ctx) error {
 				nfpm.WithDefaults(info)
 			}
 			in := vc.in()
-			in["format"], in["name"], in["arch"], in["arch_override"] = f, name, arch, override
+			in["format"], in["name"], in["arch"], in["arch_override"], in["platform"] = f, name, arch, override, platform
 			s := &PkgSpec{Umask: 0o022, MTime: 1700000000, Mutate: mut}
 			p, _ := nfpm.Get(f)
 			infoA := s.Info()
 			vi := VInfo{Name: infoA.Name, Arch: infoA.Arch, Epoch: infoA.Epoch, Version: infoA.Version, Schema: infoA.VersionSchema,
-				Release: infoA.Release, Prerelease: infoA.Prerelease, Metadata: infoA.VersionMetadata, ArchOverride: override}
+				Release: infoA.Release, Prerelease: infoA.Prerelease, Metadata: infoA.VersionMetadata, ArchOverride: override, Platform: infoA.Platform}
 			fileName := p.ConventionalFileName(infoA)
 			fam.Eval(fmt.Sprint(in), infoA.Prerelease != "" || infoA.VersionMetadata != "" || infoA.Release != "" || infoA.Epoch != "")
 			fam.Count(f)
